@@ -97,10 +97,12 @@ impl<Tz: TimeZone> Clone for DateTime<Tz> where <Tz as TimeZone>::Offset: Clone 
         u.raw('#[verifier::external_body]\nfn %s() -> (r: NaiveDate)\n    ensures %s\n{ unimplemented!() }' % (cname, c['ensures']))
         u.assumed.append('NaiveDate::' + cname)
     u.prove(FD, 'and_time', 'impl NaiveDate {', cid='NaiveDate::and_time')
+    u.stub_all(FD, 'impl NaiveDate {', 'NaiveDate')
     u.raw('}\nimpl NaiveTime {')
     for n in ['from_num_seconds_from_midnight_opt', 'num_seconds_from_midnight', 'nanosecond', 'overflowing_add_signed',
               'overflowing_sub_signed', 'signed_duration_since', 'overflowing_add_offset', 'overflowing_sub_offset']:
         u.stub(FT, n, 'impl NaiveTime {', cid='NaiveTime::' + n)
+    u.stub_all(FT, 'impl NaiveTime {', 'NaiveTime')
     u.raw('}\nimpl NaiveDateTime {')
     for n in ['new', 'date', 'time', 'and_utc', 'signed_duration_since', 'checked_add_days', 'checked_sub_days']:
         u.prove(FN, n, IMPL, cid='NaiveDateTime::' + n)
